@@ -9,7 +9,7 @@
   `near P x y := 0 ≤ cutoff ∧ dist²(x, y) ≤ cutoff²` (exact rationals; this is `dist ≤ cutoff` for every cutoff, also negative).
   All theorems hold for every structure, cutoff and option combination — no size bounds.
 -/
-import PdbVerif.Proofs.ContactsSpec
+import PdbVerif.Proofs.ContactsOrder
 
 set_option linter.unusedVariables false
 
@@ -63,26 +63,32 @@ theorem spec_pair_map_meaning (P : Params) (t : List Atom) (X Y : Str) :
 
 /-! ### all chains -/
 
-/-- All chains of a structure with at least two chains: the call succeeds; the returned dictionary has exactly the chains of
-    the structure as keys (each once) and maps every chain to the union of its contact atoms over all other chains; the
-    pair map contains every contacting pair of atoms of two different chains exactly once, listed under the atom whose chain
-    sorts first, and nothing else. -/
+/-- All chains of a structure with at least two chains: the call succeeds; the returned dictionary is the Spec's, entry for
+    entry (the chains of the structure in order, each mapped to the union of its contact atoms over all other chains);
+    the pair map contains every contacting pair of atoms of two different chains exactly once, listed under the atom whose
+    chain sorts first, and nothing else. -/
 theorem contacts_all_chains (t : List Atom) (a : ContactArgs) (hall : a.allchains = true) (h2 : 2 ≤ (getChains t).length)
     (hext : a.extend = false) :
-    ∃ d m, contactRun t a = .ok (d, m) ∧
-      d.keys.Nodup ∧ (∀ X, X ∈ d.keys ↔ X ∈ chainIDs t) ∧
-      (∀ X ∈ chainIDs t, d.get? X = some (contactAtomsAll (params a) t X)) ∧
-      IsAllChainsPairMap (params a) t m := by
-  refine ⟨_, _, contactRun_all t a hall h2, ?_, ?_, ?_, pairsAfterLoop_all t a hall⟩
-  · rw [keys_map_upd (icAfterLoop t a) (fun e => (e.1, extendIf a t (sortedSet ltNat e.2))) (fun _ => rfl)]
-    exact nodup_keys_icAfterLoop t a
-  · intro X
-    rw [keys_map_upd (icAfterLoop t a) (fun e => (e.1, extendIf a t (sortedSet ltNat e.2))) (fun _ => rfl), chainIDs_eq]
-    exact mem_keys_icAfterLoop_all hall h2 X
-  · intro X hX
-    rw [chainIDs_eq] at hX
-    rw [allChains_lookup t a hall h2 hX]
-    simp [extendIf, hext]
+    ∃ m, contactRun t a = .ok (allChains (params a) t, m) ∧ IsAllChainsPairMap (params a) t m :=
+  ⟨_, contactRun_all_spec t a hall h2 hext, pairsAfterLoop_all t a hall⟩
+
+/-- … and the value `get_contact_atoms` returns is the one or the other, as `return_contact_pairs` says. -/
+theorem contacts_all_chains_returned (t : List Atom) (a : ContactArgs) (hall : a.allchains = true) (h2 : 2 ≤ (getChains t).length)
+    (hext : a.extend = false) :
+    (a.retPairs = false → Model.contactAtoms t a = .ok (ContactOut.chains (allChains (params a) t))) ∧
+    (a.retPairs = true → ∃ m, Model.contactAtoms t a = .ok (ContactOut.pairs m) ∧ IsAllChainsPairMap (params a) t m) := by
+  constructor
+  · intro h
+    simp [Model.contactAtoms, contactRun_all_spec t a hall h2 hext, Except.map, h]
+  · intro h
+    exact ⟨_, by simp [Model.contactAtoms, contactRun_all_spec t a hall h2 hext, Except.map, h], pairsAfterLoop_all t a hall⟩
+
+/-- The Spec's all-chains dictionary: exactly the chains of the structure as keys, each once, in ascending order. -/
+theorem spec_all_chains_keys (P : Params) (t : List Atom) :
+    (allChains P t).map (fun e => e.1) = chainIDs t ∧ Asc ltStr (chainIDs t) ∧ ∀ X, X ∈ chainIDs t ↔ ∃ x ∈ t, x.chainID = X := by
+  refine ⟨by simp [allChains, List.map_map, Function.comp_def], ?_, ?_⟩
+  · rw [chainIDs_eq]; exact asc_getChains t
+  · intro X; rw [chainIDs_eq]; exact mem_getChains
 
 /-- "Union over all other chains" spelled out: `i` is a contact atom of chain `X` in the all-chains result iff the atom
     there belongs to `X`, passes the filters and lies within the cutoff of a filter-passing atom of a different chain. -/
@@ -173,8 +179,8 @@ theorem ex_far_05 : near (params exAll) (mkAtom "CA" "LYS" "A" 5 0 0 0) (mkAtom 
     its partner in chain C — both at exactly the cutoff — under the one key 0 … -/
 theorem ex_hub_two_chains :
     ∃ d m, contactRun ex3 exAll = .ok (d, m) ∧ ∃ js, (0, js) ∈ m ∧ 1 ∈ js ∧ 3 ∈ js := by
-  obtain ⟨d, m, hrun, _, _, _, hm⟩ := contacts_all_chains ex3 exAll (by decide) (by decide) (by decide)
-  refine ⟨d, m, hrun, ?_⟩
+  obtain ⟨m, hrun, hm⟩ := contacts_all_chains ex3 exAll (by decide) (by decide) (by decide)
+  refine ⟨_, m, hrun, ?_⟩
   have h1 : ∃ js, (0, js) ∈ m ∧ 1 ∈ js :=
     (hm.exact 0 1).mpr ⟨mkAtom "CA" "LYS" "A" 5 0 0 0, mkAtom "CA" "ALA" "B" 1 3 4 0, rfl, rfl, by
       simp only [contactFirst, touches, Bool.and_eq_true]
@@ -195,8 +201,8 @@ theorem ex_hub_two_chains :
 /-- … while the hydrogen 2 (closer than the cutoff, excluded by `excludeH`) and atom 5 (5.25 Å away) are not listed. -/
 theorem ex_filtered_out :
     ∃ d m, contactRun ex3 exAll = .ok (d, m) ∧ (¬ ∃ js, (0, js) ∈ m ∧ 2 ∈ js) ∧ (¬ ∃ js, (0, js) ∈ m ∧ 5 ∈ js) := by
-  obtain ⟨d, m, hrun, _, _, _, hm⟩ := contacts_all_chains ex3 exAll (by decide) (by decide) (by decide)
-  refine ⟨d, m, hrun, ?_, ?_⟩
+  obtain ⟨m, hrun, hm⟩ := contacts_all_chains ex3 exAll (by decide) (by decide) (by decide)
+  refine ⟨_, m, hrun, ?_, ?_⟩
   · intro h
     obtain ⟨x, y, hx, hy, hc⟩ := (hm.exact 0 2).mp h
     have hy' : y = mkAtom "HA" "ALA" "B" 1 3 (15/4) 0 := (Option.some.inj hy).symm
